@@ -17,4 +17,11 @@ print(" ".join("theories/%s.vo" % m for m in dict.fromkeys(mods)))
 PY
 )
 ./coq/build.sh $TARGETS
-cd harness && go build -tags verif ./... && echo "setup ok"
+CMDS=$(python3 - <<'PY'
+import sys
+sys.path.insert(0, ".")
+from props import PROPS
+print(" ".join("./cmd/%s/..." % c["cmd"] for _, c in sorted(PROPS.items())))
+PY
+)
+cd harness && go build -tags verif ./lib ./recdrv ./gdb ./whr ./facts $CMDS && echo "setup ok"
